@@ -201,10 +201,15 @@ def batch_level(case):
     res = fedjax.evaluate_model(model, {}, [b])
     for k in mets:
       _cmp_result(k, res[k], fold(singles[k], zeros[k], seq), 'evaluate_model on one batch', nc)
-    if case.get('direct'):
+    for mode in ((['jit'] if case.get('direct') else []) + (['eager'] if case.get('eager') else [])):
+      import contextlib
+      import jax
       ex = {kk: jnp.asarray(v) for kk, v in b.items() if kk not in ('pred', MASK)}
       for k, m in mets.items():
-        st = metrics.evaluate_batch(m, ex, jnp.asarray(b['pred']), jnp.asarray(b[MASK]) if with_mask else None)
+        # 'eager': op-by-op execution (jax.disable_jit(), what a user debugging a metric runs) - XLA's algebraic
+        # rewrites of the fused graph (e.g. multiply-by-mask -> select) do not happen there
+        with (jax.disable_jit() if mode == 'eager' else contextlib.nullcontext()):
+          st = metrics.evaluate_batch(m, ex, jnp.asarray(b['pred']), jnp.asarray(b[MASK]) if with_mask else None)
         _cmp_result(k, st.result(), fold(singles[k], zeros[k], seq), 'metrics.evaluate_batch', nc)
         got = _f64(mr.stat_arrays(st))
         want = fold(singles[k], zeros[k], seq)
@@ -451,7 +456,7 @@ def plan(ctx):
         bl.append({'family': fam, 'n': n, 'pad': pad, 'kind': kind, 'direct': n <= (3 if th else 2) and pad <= 1})
       bl.append({'family': fam, 'n': max(n, 1), 'pad': 0, 'kind': 'zeros', 'nomask': True})
       if n <= 3:
-        bl.append({'family': fam, 'n': n, 'pad': 1 + n % 2, 'kind': 'extreme', 'direct': n <= 2})
+        bl.append({'family': fam, 'n': n, 'pad': 1 + n % 2, 'kind': 'extreme', 'direct': n <= 2, 'eager': n <= (2 if th else 1)})
       if 1 <= n <= 3:
         for layout in ('front', 'interleaved'):
           bl.append({'family': fam, 'n': n, 'pad': 2 if n > 1 else 1, 'kind': 'poison', 'layout': layout})
